@@ -6,8 +6,8 @@ Record case := {
   c_env_sorted : list zs;
   c_pairs : list (zs * zs);        (* the (name, value) pairs it was built from — generator's ground truth *)
   c_nrt : nat;
-  c_ops : list op;
-  c_obs : list (list (option envmap));   (* after each op, Object.entries(process.env) of every runtime, sorted by key *)
+  c_ops : list hop;                (* operations of the runtimes and of the host (os.Setenv / os.Unsetenv) *)
+  c_obs : list (list (option envmap));   (* after each op, Object.entries(process.env) of every runtime, sorted by key; [] = nothing was read after this op *)
   c_host_after : list zs                  (* os.Environ() at the end, sorted *)
 }.
 
@@ -34,42 +34,53 @@ Definition all_rts_agree (nrt : nat) (obs : list (option envmap)) (f : nat -> op
   Nat.eqb (length obs) nrt &&
   forallb (fun r => same_opt (nth r obs None) (f r)) (seqn nrt).
 
-(* correspondence: the model replays the history and must agree after every operation *)
-Fixpoint model_agrees (nrt : nat) (w : world) (ops : list op) (obs : list (list (option envmap))) : bool :=
+Definition unobserved (ob : list (option envmap)) : bool := match ob with [] => true | _ => false end.
+
+(* correspondence: the model replays the history and must agree after every operation that was followed by a reading *)
+Fixpoint model_agrees (nrt : nat) (w : world) (ops : list hop) (obs : list (list (option envmap))) : bool :=
   match ops, obs with
   | [], [] => true
   | o :: ops', ob :: obs' =>
-    match step w o with
+    match hstep w o with
     | None => false
-    | Some w' => all_rts_agree nrt ob (rt_env w') && model_agrees nrt w' ops' obs'
+    | Some w' => (unobserved ob || all_rts_agree nrt ob (rt_env w')) && model_agrees nrt w' ops' obs'
     end
   | _, _ => false
   end.
 
-(* specification oracle, independent of Model.build_env: a runtime that has required process sees
-   exactly the generator's pairs, modified only by its own assignments and deletes *)
-Definition spec_step (f : nat -> option envmap) (ps : envmap) (o : op) : nat -> option envmap :=
+(* specification oracle, independent of Model.build_env: a runtime that has required process sees exactly the pairs the
+   host had at that moment (the generator's pairs, changed by the host's own Setenv/Unsetenv up to then), modified only
+   by its own assignments and deletes *)
+Definition spec_step (f : nat -> option envmap) (ps : envmap) (o : hop) : (nat -> option envmap) * envmap :=
   match o with
-  | Req r => match f r with Some _ => f | None => upd_rt f r (Some ps) end
-  | SetVar r k v => match f r with Some m => upd_rt f r (Some (set_key k v m)) | None => f end
-  | DelVar r k => match f r with Some m => upd_rt f r (Some (remove_key k m)) | None => f end
+  | RtOp (Req r) => (match f r with Some _ => f | None => upd_rt f r (Some ps) end, ps)
+  | RtOp (SetVar r k v) => (match f r with Some m => upd_rt f r (Some (set_key k v m)) | None => f end, ps)
+  | RtOp (DelVar r k) => (match f r with Some m => upd_rt f r (Some (remove_key k m)) | None => f end, ps)
+  | HostSet k v => (f, set_key k v ps)
+  | HostUnset k => (f, remove_key k ps)
   end.
 
-Fixpoint spec_check (nrt : nat) (f : nat -> option envmap) (ps : envmap) (ops : list op)
-         (obs : list (list (option envmap))) : list verdict :=
+Definition hop_rt (o : hop) : option nat := match o with RtOp x => Some (op_rt x) | _ => None end.
+
+Fixpoint spec_check (nrt : nat) (f : nat -> option envmap) (ps : envmap) (ops : list hop)
+         (obs : list (list (option envmap))) : list verdict * envmap :=
   match ops, obs with
   | o :: ops', ob :: obs' =>
-    let f' := spec_step f ps o in
-    let own := same_opt (nth (op_rt o) ob None) (f' (op_rt o)) in
-    let others := forallb (fun r => Nat.eqb r (op_rt o) || same_opt (nth r ob None) (f' r)) (seqn nrt) in
-    (if own then [] else [SpecFail 1]) ++ (if others then [] else [SpecFail 2]) ++
-    spec_check nrt f' ps ops' obs'
-  | _, _ => []
+    let '(f', ps') := spec_step f ps o in
+    let own := match hop_rt o with Some r => same_opt (nth r ob None) (f' r) | None => true end in
+    let others := forallb (fun r => (match hop_rt o with Some r0 => Nat.eqb r r0 | None => false end) || same_opt (nth r ob None) (f' r)) (seqn nrt) in
+    let '(rest, psf) := spec_check nrt f' ps' ops' obs' in
+    ((if unobserved ob || own then [] else [SpecFail 1]) ++ (if unobserved ob || others then [] else [SpecFail 2]) ++ rest, psf)
+  | _, _ => ([], ps)
   end.
 
 Definition check (c : case) : list verdict :=
+  let '(vs, psf) := spec_check (c_nrt c) (fun _ => None) (c_pairs c) (c_ops c) (c_obs c) in
   (if model_agrees (c_nrt c) (init_world (c_env c)) (c_ops c) (c_obs c) then [] else [Diff 1]) ++
-  spec_check (c_nrt c) (fun _ => None) (c_pairs c) (c_ops c) (c_obs c) ++
-  (if list_eqb zs_eqb (c_host_after c) (c_env_sorted c) then [] else [SpecFail 3]).
+  vs ++
+  (* the host's own environment at the end: the generator's pairs changed by the host's own calls only *)
+  (* (split at the first '=' here, not with the constants translated from the source: the oracle must not depend on them) *)
+  (let hm := fold_left (fun m e => match split_at_first 61 e with Some (a, b) => set_key a b m | None => set_key e [] m end) (c_host_after c) [] in
+   if same_map hm psf then [] else [SpecFail 3]).
 
 Definition run_cases := check_list check.
